@@ -163,7 +163,7 @@ Theorem writeto_has_no_untranslated_statement :
   map (fun p => list_sum (map unknowns (p_body p))) (filter (fun p => String.eqb (p_method p) "WriteTo") observers) = [0].
 Proof. vm_compute. reflexivity. Qed.
 
-Example observers_counted : List.length observers = 491.
+Example observers_counted : List.length observers = 494.
 Proof. vm_compute. reflexivity. Qed.
 Print Assumptions observers_write_only_the_type_cache.
 Print Assumptions id_passes_called_from.
